@@ -16,9 +16,22 @@ import traceback
 sys.path.insert(0, os.path.dirname(os.path.abspath(__file__)))
 import vlib  # noqa: E402
 
-MODULES = {
-    "C01": "check_seq", "C02": "check_seq", "C10": "check_seq",
-}
+def discover():
+    """Every tools/check_*.py declares PROPS = [ids]; map id -> module name."""
+    import glob
+    import re
+    mods = {}
+    here = os.path.dirname(os.path.abspath(__file__))
+    for f in sorted(glob.glob(os.path.join(here, "check_*.py"))):
+        with open(f) as fh:
+            m = re.search(r"^PROPS\s*=\s*\[([^\]]*)\]", fh.read(), re.M)
+        if m:
+            for pid in re.findall(r"C\d+", m.group(1)):
+                mods[pid] = os.path.basename(f)[:-3]
+    return mods
+
+
+MODULES = discover()
 
 
 def main():
